@@ -5,7 +5,7 @@ from rules import esc_rule, idref_rule
 def run(ctx):
     ctx.clause = ("no string read from the IR (names, SONAME, paths, versions, symbol ids) reaches the XML stream "
                   "without the context's sanitiser; every emitted type-id reference is recorded for emission")
-    ctx.rules = ["R-ESC", "R-ESC/TABLE", "R-IDREF", "R-IDUNIQ"]
+    ctx.rules = ["R-ESC", "R-ESC/TABLE", "R-ESC/SIGN", "R-IDREF", "R-IDUNIQ"]
     P = ctx.program(None)   # whole program: call sites of writer helpers and of setters must all be visible
     esc_rule.Esc(ctx, P).run()
     idref_rule.run(ctx, P)
